@@ -243,15 +243,19 @@ def run_bank(desc, tier, seed, res):
                         res.violation(f"C10/variant/not-reported/{vname}", f"{name}: the unit {vname} but write_raw returned normally "
                                       f"(memory correct: {good})", vw)
                 # a read-only / unimplemented location inside a writeable value
-                unit6, other6, bank6, ob6, addr6 = make_unit(rng(seed, "C10", "ro", name), bankkey, family, lock0)
                 from models.membank import RO
-                bank6.access[row.last] = RO
-                o = attempt(Bus([unit6, other6], bound=600), cls.write_raw(addr6, raw))
-                res.hit("unit_variants")
-                if is_lockbyte:
-                    pass
-                elif o[0] == "ok":
-                    res.violation("C10/variant/not-reported/location-refused", f"{name}: the unit answered NO for its last location but write_raw returned normally", wit)
+                for refused in sorted({row.first, row.last, (row.first + row.last) // 2, min(row.first + 1, row.last),
+                                       max(row.last - 1, row.first)}):
+                    unit6, other6, bank6, ob6, addr6 = make_unit(rng(seed, "C10", "ro", name), bankkey, family, lock0)
+                    bank6.access[refused] = RO
+                    o = attempt(Bus([unit6, other6], bound=600), cls.write_raw(addr6, raw))
+                    res.hit("unit_variants")
+                    if is_lockbyte:
+                        pass
+                    elif o[0] == "ok":
+                        res.violation("C10/variant/not-reported/location-refused", f"{name}: the unit answered NO for location "
+                                      f"{refused:#x} (value at {row.first:#x}..{row.last:#x}) but write_raw returned normally",
+                                      {**wit, "refused_location": refused})
         # value-level write(): numbers, literals, strings
         if row.writable and name not in ("LockByte",):
             r = rng(seed, "C10", "valuewrite", name)
